@@ -272,17 +272,19 @@ inductive Reach (E : List (Nat × Nat)) : Nat → Nat → Prop
   | edge {a b} : (a, b) ∈ E → Reach E a b
   | trans {a b c} : Reach E a b → Reach E b c → Reach E a c
 
-/-- FULL STATEMENT (not proved here; checked on every run by the closure comparison of the
-    real `_create_dag` with the dependency relation and by `pickCheck` on every recorded
-    execution order): two blocks that share a qubit are ordered by the DAG. -/
+/-- FULL STATEMENT, proved as `T09_dag` in Props/C09b.lean (and still checked on every run by
+    the closure comparison of the real `_create_dag` with the dependency relation and by
+    `pickCheck` on every recorded execution order): two blocks that share a qubit are ordered
+    by the DAG. -/
 def T09_dag_statement : Prop :=
   ∀ (pairs : List (List Nat)), (∀ p ∈ pairs, ∃ a b, a ≠ b ∧ p = [a, b]) →
     ∀ i j q, i < j → j < pairs.length → q ∈ pairs.getD i [] → q ∈ pairs.getD j [] →
       Reach (dagEdges 0 pairs) i j
 
-/-- FULL STATEMENT (not proved here; the star model is compared with the real router on
-    every run, and the guards of its action list are evaluated by the driver): on a star
-    graph with centre `mid` every action generated by the star loop satisfies its guard. -/
+/-- FULL STATEMENT, proved as `T09_star_guards` in Props/C09b.lean (the star model is compared
+    with the real router on every run, and the guards of its action list are also evaluated by
+    the driver): on a star graph with centre `mid` every action generated by the star loop
+    satisfies its guard. -/
 def T09_star_guards_statement : Prop :=
   ∀ (n mid : Nat) (queue : List RGate) (as : List Action), mid < n →
     (∀ g ∈ queue, g.qs.Nodup ∧ ∀ q ∈ g.qs, q < n) →
